@@ -959,12 +959,12 @@ def alias_part(ctx):
 
 
 def required_part(ctx):
-    """`required` and nullability: kernels K17 (CodeBuilder.is_field_nullable) and K6R (on_dataclass) against the
+    """`required` and nullability: kernels K20 (CodeBuilder.is_field_nullable) and K6R (on_dataclass) against the
     model; (T) validation of both translations on sampled field declarations"""
-    ctx.theorems("props/C06_required.vo", ["K17_spec", "K17_wrappers_transparent", "C06_schema_requires_spec",
-                                           "C06_fnullable_is_K17", "C06_frequired_is_K6R"], kernels=["K17", "K6R"])
+    ctx.theorems("props/C06_required.vo", ["K20_spec", "K20_wrappers_transparent", "C06_schema_requires_spec",
+                                           "C06_fnullable_is_K20", "C06_frequired_is_K6R"], kernels=["K20", "K6R"])
     kr = ctx.kernel_report
-    if not (kr.get("K17", {}).get("ok") and kr.get("K6R", {}).get("ok")):
+    if not (kr.get("K20", {}).get("ok") and kr.get("K6R", {}).get("ok")):
         return
     from mashumaro.core.meta.code.builder import CodeBuilder
     from mashumaro.jsonschema import build_json_schema
@@ -1007,16 +1007,16 @@ def required_part(ctx):
         descr.append(f"x: {ts}{' = ' + dflt if dflt else ''} omit_none={omit} -> nullable {en}, required {er}")
     okf = ("fun c => match c with (t, d, h, o, en, er) => Bool.eqb (is_field_nullable t d) en && "
            "match schema_requires (KBool h) (KBool o) (KBool (is_field_nullable t d)) with Ok (KBool b) => Bool.eqb b er | _ => false end end")
-    bad, log = vlib.coq_bad_idx("c06_k17", "PyK_nullable", "From VerifGen Require Import K17 K6R.", "", cases, okf,
-                                "fty * bool * bool * bool * bool * bool", shard=500, needs=["gen/K17.vo", "gen/K6R.vo"])
-    name = "K17+K6R-translation-vs-python(is_field_nullable, required)"
+    bad, log = vlib.coq_bad_idx("c06_k20", "PyK_nullable", "From VerifGen Require Import K20 K6R.", "", cases, okf,
+                                "fty * bool * bool * bool * bool * bool", shard=500, needs=["gen/K20.vo", "gen/K6R.vo"])
+    name = "K20+K6R-translation-vs-python(is_field_nullable, required)"
     if bad is None:
         ctx.correspondence(name, len(cases), -1, log)
-        ctx.not_shown("translation validation K17/K6R", log)
+        ctx.not_shown("translation validation K20/K6R", log)
     else:
         ctx.correspondence(name, len(cases), len(bad), str([descr[i] for i in bad[:8]]))
         if bad:
-            ctx.not_shown("translation validation K17/K6R", f"fields {[descr[i] for i in bad[:8]]}")
+            ctx.not_shown("translation validation K20/K6R", f"fields {[descr[i] for i in bad[:8]]}")
     ctx.count(n=len(cases))
 
 
